@@ -60,6 +60,14 @@ TOptCall(ev) ==
   /\ Clause(ev, "opt-verbose", ev.rep.verboseOk)
   /\ Clause(ev, "opt-split", ev.rep.splitOk)
 
+\* the call either refused (state unchanged) or the session continues on the re-imported graph, whose own binding is checked like a construction
+TReload(ev) ==
+  /\ Observe(ev) /\ status' = status /\ memo' = EmptyMemo
+  /\ Clause(ev, "reload-effect", ReloadEffect(ev.raised, [i \in DOMAIN ev.verts |-> ev.verts[i].pose], [n \in DOMAIN ev.edges |-> ev.edges[n].num]))
+  /\ Clause(ev, "reload-gradient-index", ev.raised \/ \A j \in DOMAIN ev.verts : ev.gidx[j] = GradientIndex(ev.verts, j))
+  /\ Clause(ev, "reload-binding", ev.raised \/ \A n \in DOMAIN ev.edges : ev.bound[n] = Bind2(ev.edges[n], ev.verts))
+  /\ Clause(ev, "reload-chi2", ev.raised \/ ev.chi2Ok)
+
 TNext ==
   /\ l <= Len(TraceLog) /\ l' = l + 1
   /\ LET ev == TraceLog[l] IN
@@ -67,6 +75,7 @@ TNext ==
          [] ev.op = "Query" -> TQuery(ev)
          [] ev.op = "SetFixed" -> TSetFixed(ev)
          [] ev.op = "OptCall" -> TOptCall(ev)
+         [] ev.op = "Reload" -> TReload(ev)
 TSpec == TInit /\ [][TNext]_tvars
 
 \* every line was consumed and no clause failed
